@@ -391,6 +391,9 @@ def replay(data):
     if 'history' in data:
         from . import histcheck
         return histcheck.replay('C20', data)
+    if data.get('part') == 'readonly':
+        from . import c14
+        return c14.replay(data)
     common.install_common_stubs()
     GF.silence_all()
     c, w, label = data['cfg'], data['world'], data['label']
@@ -542,4 +545,7 @@ def check(rep):
     # the admin jobs in states reached by real jobs (pull requests queued by the real handler)
     from . import histcheck
     histcheck.check(rep, 'C20')
-
+    # the order in which pending jobs are evaluated is the order of the task queue: no request that
+    # only reads (status page, job listings) may change it (shared with C14)
+    from . import c14
+    c14.readonly_part(rep, 'C20')
